@@ -7,7 +7,10 @@ from ..pat_impl import REG, lit, node
 
 PROPERTY = "C12"
 LEAN_MODULE = "IsobarV"
-THEOREMS = ["IsobarV.C12." + t for t in ("ref_transparent", "ref_outs", "ref_retarget", "const_constant", "bin_consumes_once", "arrayIndex_index_once", "seq_item_resolved")]
+THEOREMS = ["IsobarV.C12." + t for t in ("ref_transparent", "ref_outs", "ref_retarget", "const_constant", "bin_consumes_once", "arrayIndex_index_once", "seq_item_resolved",
+    # the by-name reference PGlobals over Globals holding patterns (lean/IsobarV/Props/C12Names.lean)
+    "retarget_next_step", "reads_walk_the_pattern", "reads_after_retarget", "read_after_set_scalar", "read_unset_is_default",
+    "read_other_untouched")]
 try:
     from .. import pat_reg_ext as _ext
     THEOREMS = list(THEOREMS) + _ext.theorems(PROPERTY)
@@ -249,7 +252,17 @@ def resolution_and_retarget_cases(ctx):
         exp_a = [cyc_a[j % len(cyc_a)] for j in range(k)]
         exp_b = [cyc_b[j % len(cyc_b)] for j in range(len(got_b))]
         strict = lambda xs: all(type(x) is int for x in xs)          # Pattern == number is a truthy PEqual: check the types too
-        ctx.case(("retarget-by-name", where, kind_a, kind_b, tuple(a), tuple(b), k), nontrivial=True, validated=False,
+        validated = False
+        if ctx.model_available and strict(got_a) and strict(got_b):
+            tok = lambda kind, vals: ("s:%d" % vals[0]) if kind in ("scalar", "constant") else "q:" + ",".join(map(str, vals))
+            lines = ["gnew", "gset n %s" % tok(kind_a, a)] + ["gget n"] * k + ["gset n %s" % tok(kind_b, b)] + ["gget n"] * len(got_b)
+            out = ctx.driver("static", lines)
+            mdl = [o for o, l in zip(out, lines) if l == "gget n"]
+            validated = True
+            if mdl != [str(x) for x in got_a + got_b]:
+                ctx.disagreement("by-name reference: PGlobals read %s, the model %s" % (got_a + got_b, mdl),
+                                 {"suite": "retarget-by-name", "lines": lines, "where": where})
+        ctx.case(("retarget-by-name", where, kind_a, kind_b, tuple(a), tuple(b), k), nontrivial=True, validated=validated,
                  sample={"retarget_by_name": {"where": where, "from": kind_a, "to": kind_b, "before": got_a, "after": got_b}} if i < 2 else None)
         ctx.count("retarget-by-name:%s->%s" % (kind_a, kind_b))
         if not (strict(got_a) and strict(got_b)) or got_a != exp_a or got_b != exp_b:
